@@ -22,6 +22,10 @@ struct Tape {
   uint64_t bit_fill = 0;
   size_t max_draws = 100000;
   bool runaway = false;
+  uint64_t fill_seed = 0;           // != 0: draws beyond the supplied outcomes come from a deterministic pseudo-random sequence
+  // fill code (the `fill` argument of a RunFn): bits 2..63 = raw fill value, bit 0 = bit fill, bit 1 = pseudo-random continuation seeded by the code
+  void set_fill(uint64_t code) { raw_fill = code & ~(uint64_t)3; bit_fill = code & 1; fill_seed = (code & 2) ? code : 0; if (!(code & 2) && raw_fill == 0) raw_fill = 4; }
+  uint64_t fill_value(size_t p) const { uint64_t x = fill_seed + 0x9e3779b97f4a7c15ULL * (uint64_t)(p + 1); x ^= x >> 30; x *= 0xbf58476d1ce4e5b9ULL; x ^= x >> 27; x *= 0x94d049bb133111ebULL; x ^= x >> 31; return x; }
 };
 
 inline Tape*& cur_tape() { static Tape* t = nullptr; return t; }
@@ -35,14 +39,14 @@ inline void seg_mark(Tape* t) { if (!t->kinds.empty()) t->seg.push_back(g_cov_ha
 inline uint32_t bit_source() {
   Tape* t = cur_tape();
   seg_mark(t);
-  uint64_t r = t->pos < t->v.size() ? t->v[t->pos] : t->bit_fill;
+  uint64_t r = t->pos < t->v.size() ? t->v[t->pos] : (t->fill_seed ? (t->fill_value(t->pos) >> 63) : t->bit_fill);
   t->pos++; t->kinds.push_back(0);
   return (uint32_t)(r & 1);
 }
 inline uint64_t raw_source() {
   Tape* t = cur_tape();
   seg_mark(t);
-  uint64_t r = t->pos < t->v.size() ? t->v[t->pos] : t->raw_fill;
+  uint64_t r = t->pos < t->v.size() ? t->v[t->pos] : (t->fill_seed ? (t->fill_value(t->pos) | 1) : t->raw_fill);
   t->pos++; t->kinds.push_back(1);
   if (t->pos > t->max_draws) { t->runaway = true; throw std::runtime_error("mc: runaway draw loop"); }
   return r;
@@ -50,9 +54,9 @@ inline uint64_t raw_source() {
 
 // RAII: install a tape for the duration of a library operation
 struct TapeScope {
-  Tape* prev;
+  Tape* prev; bool prev_on; uint64_t prev_hash;
   explicit TapeScope(Tape& t) {
-    prev = cur_tape(); cur_tape() = &t;
+    prev = cur_tape(); cur_tape() = &t; prev_on = g_cov_on; prev_hash = g_cov_hash;
     datasketches::random_utils::verif_bit_source() = &bit_source;
     datasketches::random_utils::verif_raw_source() = &raw_source;
     g_cov_hash = 1469598103934665603ULL; g_cov_on = true;
@@ -60,7 +64,7 @@ struct TapeScope {
   ~TapeScope() {
     Tape* t = cur_tape();
     if (!t->kinds.empty()) t->seg.push_back(g_cov_hash);
-    g_cov_on = false;
+    g_cov_on = prev_on; g_cov_hash = prev_hash;   // nested scopes (operands built under a fixed schedule) do not disturb the outer one
     cur_tape() = prev;
     if (!prev) {
       datasketches::random_utils::verif_bit_source() = &unexpected_bit;
@@ -115,16 +119,35 @@ struct ChoiceExplorer {
     else s += "|short";
     return s;
   }
+  // Signature of choosing value v at draw position j: control-flow path to the next draw (when compiled with coverage)
+  // plus the end states under a family of continuations, because the value may flow into data that only some later
+  // outcomes expose: if the remaining draws are few bits, ALL bit continuations are enumerated (exact); otherwise a fixed
+  // set of constant and pseudo-random continuations is used (stated assumption: a difference shows under one of them).
   std::string probe(std::vector<uint64_t>& pre, uint64_t v, size_t j) {
     pre.push_back(v);
     std::string s;
     RunResult r = run(pre, 0x8000000000000000ULL); st->runs++;
     s = sig_at(r, j);
-    if (r.kinds.size() > j + 1) s += "|" + r.canon + "|" + std::to_string(r.kinds.size()); // value may flow into data, not control
-    if (r.kinds.size() > j + 1 && !g_cov_present) {
-      // no control-flow signature available: use end states under two more continuations
-      RunResult r2 = run(pre, raw_from_unit(0.001)); RunResult r3 = run(pre, raw_from_unit(0.999)); st->runs += 2;
-      s += "|" + r2.canon + "|" + r3.canon + "|" + std::to_string(r2.kinds.size()) + "," + std::to_string(r3.kinds.size());
+    if (r.kinds.size() > j + 1) {
+      s += "|" + r.canon + "|" + std::to_string(r.kinds.size());
+      size_t rest = r.kinds.size() - (j + 1); bool all_bits = true;
+      for (size_t q = j + 1; q < r.kinds.size(); ++q) if (r.kinds[q] != 0) all_bits = false;
+      if (all_bits && rest <= 8) {
+        std::vector<uint64_t> t = pre; t.resize(pre.size() + rest, 0);
+        for (uint32_t m = 1; m < (1u << rest); ++m) {
+          for (size_t q = 0; q < rest; ++q) t[pre.size() + q] = (m >> q) & 1;
+          RunResult rr = run(t, 0x8000000000000000ULL); st->runs++;
+          s += "|" + rr.canon + "," + std::to_string(rr.kinds.size());
+        }
+      } else {
+        const uint64_t fills[] = { 0x8000000000000000ULL | 1, raw_from_unit(0.07) & ~(uint64_t)3, (raw_from_unit(0.07) & ~(uint64_t)3) | 1,
+                                   raw_from_unit(0.93) & ~(uint64_t)3, (raw_from_unit(0.93) & ~(uint64_t)3) | 1,
+                                   0x1234567890abcde2ULL, 0x0fedcba987654322ULL, 0x5555aaaa33336666ULL | 2, 0x7777111199992222ULL | 2 };
+        for (size_t f = 0; f < sizeof(fills) / sizeof(fills[0]); ++f) {
+          RunResult rr = run(pre, fills[f]); st->runs++;
+          s += "|" + rr.canon + "," + std::to_string(rr.kinds.size());
+        }
+      }
     }
     pre.pop_back();
     return s;
